@@ -93,6 +93,7 @@ class TicksFromInt(TypesBase):
 
 
 class TicksPythonize(TypesBase):
+    props = ("C17", "C15")        # C15: the wrapper hands out a timedelta for every TimeTicks value, 0 included
     target = "puresnmp.types:TimeTicks.pythonize"
     functions = (target,)
     name = "TimeTicks.pythonize[0 <= n < 2^32]"
@@ -105,10 +106,11 @@ class TicksPythonize(TypesBase):
         obj = Obj(cls, {"pyvalue": n, "_raw_bytes": b""})
         res = interp.call(rt.getattr(interp, obj, "pythonize"), [], {})
         ok = isinstance(res, Obj) and res.cls is rt.td_cls
-        ctx.check(oname("C17", self.target, "ensures", "result-is-a-timedelta"), ok)
-        if ok:
-            ctx.check(oname("C17", self.target, "ensures", "exactly-n-hundredths-of-a-second"),
-                      lift_bool(zint(res.fields["us"]) == n.e * 10 ** 4))
+        for p in self.props:
+            ctx.check(oname(p, self.target, "ensures", "result-is-a-timedelta"), ok)
+            if ok:
+                ctx.check(oname(p, self.target, "ensures", "exactly-n-hundredths-of-a-second"),
+                          lift_bool(zint(res.fields["us"]) == n.e * 10 ** 4))
         return "returns"
 
 
